@@ -703,6 +703,24 @@ fn walk(bytes: &[u8], c: &Value) -> Value {
     Value::Array(arrs)
 }
 
+/// Every public way of producing the file x pre-state of the destination {absent, shorter file, longer file}: the resulting
+/// FILE contents are logged (len + tok); the spec says they equal the bytes of `write`.
+fn save_events(t: &mut Vec<Value>, c: &Value, case: &str, len: usize, save: &dyn Fn(&std::path::Path) -> std::result::Result<(), wow_m2::M2Error>) {
+    if !c.get("save").and_then(|x| x.as_bool()).unwrap_or(false) {
+        return;
+    }
+    let sc = Scratch::new("c13save");
+    for (pre, fill) in [("absent", None), ("shorter", Some(len / 2)), ("longer", Some(2 * len + 17))] {
+        let path = sc.file(&format!("{pre}.bin"));
+        if let Some(n) = fill {
+            std::fs::write(&path, vec![0xAAu8; n]).unwrap_or_else(|e| tool_error(&format!("prefill: {e}")));
+        }
+        let r = guarded(|| save(&path));
+        let bytes = std::fs::read(&path).unwrap_or_default();
+        t.push(json!({"ev":"Save","case":case,"api":"save","pre":pre,"prelen":fill.map(|n| n as i64).unwrap_or(-1),"res":res_of(&r),"note":note_of(&r),"len":bytes.len(),"tok":tok(&bytes)}));
+    }
+}
+
 fn run_m2(t: &mut Vec<Value>, c: &Value, case: &str, seed: u64) {
     let m = build_model(c, seed, case);
     let from = gs(c, "ver");
@@ -716,6 +734,7 @@ fn run_m2(t: &mut Vec<Value>, c: &Value, case: &str, seed: u64) {
     t[n]["len"] = json!(bytes.len());
     t[n]["tok"] = json!(tok(&bytes));
     t.push(json!({"ev":"Arrays","case":case,"len":bytes.len(),"hsize":c["hsize"],"arrs":walk(&bytes, c)}));
+    save_events(t, c, case, bytes.len(), &|p| m.save(p));
     let p = parse_model(&bytes);
     let (pres, pnote) = (res_of(&p), note_of(&p));
     let pm = take(p);
@@ -847,6 +866,7 @@ fn run_skin(t: &mut Vec<Value>, c: &Value, case: &str, seed: u64) {
     t[n]["len"] = json!(bytes.len());
     t[n]["tok"] = json!(tok(&bytes));
     t.push(json!({"ev":"Arrays","case":case,"len":bytes.len(),"hsize":c["hsize"],"arrs":walk(&bytes, c)}));
+    save_events(t, c, case, bytes.len(), &|p| s.save(p));
     let p = guarded(|| SkinFile::parse(&mut Cursor::new(&bytes)));
     let (pres, pnote) = (res_of(&p), note_of(&p));
     let ps = take(p);
@@ -959,6 +979,7 @@ fn run_anim(t: &mut Vec<Value>, c: &Value, case: &str, seed: u64) {
         }
     }
     t.push(json!({"ev":"Arrays","case":case,"len":bytes.len(),"hsize":c["hsize"],"arrs":arrs}));
+    save_events(t, c, case, bytes.len(), &|p| a.save(p));
     let p = guarded(|| AnimFile::parse(&mut Cursor::new(&bytes)));
     let (pres, pnote) = (res_of(&p), note_of(&p));
     let pa = take(p);
